@@ -19,6 +19,9 @@ PROPS = {
     "C11": {"jobs": [{"pkg": "load", "run": "^TestC11$", "checks_quick": 1500, "checks_thorough": 2500, "shards_thorough": 16}], "timeout_quick": 1200},
     "C12": {"jobs": [{"pkg": "hostile", "run": "^(TestC12|FuzzC12Decode)$", "checks_quick": 6000, "checks_thorough": 12000, "shards_thorough": 12, "wal": True},
                      {"pkg": "hostile", "fuzz": "FuzzC12Decode", "tiers": ["thorough"], "shards_thorough": 1, "fuzztime_thorough": "240s"}]},
+    "C13": {"jobs": [{"pkg": "conc", "run": "^TestC13Coop$", "checks_quick": 4000, "checks_thorough": 8000, "shards_thorough": 12},
+                     {"pkg": "conc", "run": "^TestC13Free$", "race": True, "wal": True, "checks_quick": 250, "checks_thorough": 1500, "shards_quick": 4, "shards_thorough": 8}],
+            "timeout_quick": 1200},
     "C15": {"jobs": [{"pkg": "iter", "run": "^TestC15$", "checks_quick": 4000, "checks_thorough": 6000, "shards_thorough": 16}]},
     "C17": {"jobs": [{"pkg": "load", "run": "^TestC17$", "checks_quick": 1500, "checks_thorough": 600, "shards_thorough": 16}]},
     "C18": {"jobs": [{"pkg": "codec", "run": "^TestC18$", "checks_quick": 3000, "checks_thorough": 5000, "shards_thorough": 16}]},
@@ -27,7 +30,7 @@ PROPS = {
 
 PROPS["C20"] = {"jobs": [{"pkg": "keys", "run": "^TestC20$", "checks_quick": 1500, "checks_thorough": 2500, "shards_thorough": 16}]}
 
-HOOK_COMMITS = []
+HOOK_COMMITS = ["0049d5e", "3ca7037"]
 
 # Manifest metadata per claimed property.
 META = {
